@@ -113,7 +113,7 @@ def gen_sibling_program(rng, dtype):
     shared = [{"shape": [k, int(rng.integers(1, 3))], "rg": True}]
     trunk, cur = [], 0
     for _ in range(int(rng.integers(0, 3))):
-        trunk.append({"op": ["sin", "tanh", "mulc", "addc"][int(rng.integers(4))], "args": [cur], "cseed": int(rng.integers(1 << 30))})
+        trunk.append({"op": ["sin", "tanh", "mulc", "addc", "pyfunc"][int(rng.integers(5))], "args": [cur], "cseed": int(rng.integers(1 << 30))})
         cur = len(trunk)
     trunk.append({"op": "unbind" if rng.random() < 0.6 or k != 2 else "split", "args": [cur]})
     tup = len(trunk)
@@ -324,7 +324,7 @@ def _feature_is_sibling(desc):
 
 def gen_deep(rng, i):
     depth = int(rng.integers(50, 201))
-    ops = ["sin", "tanh", "addc", "scale", "sigmoid", "softplus"]
+    ops = ["sin", "tanh", "addc", "scale", "sigmoid", "softplus", "pyfunc"]
     nodes, cur = [], 0
     leaves = [{"shape": [2], "rg": True}, {"shape": [2], "rg": True}, {"shape": [2], "rg": bool(rng.random() < 0.5)}]
     for d in range(depth):
